@@ -347,7 +347,7 @@ def main(tier, seed, replay=None):
     res.assumptions = ['ids handed out by the OS are fresh', 'reaction table of the child classes (Ctrl/Model.v)', 'finite restart timeout (timeout=None on an uncooperative target blocks by design)',
                        'the emptiness of the new result stream and the counter starting from zero are consequences of __init__ creating a new pipe and a new child; they are exercised on real workers, not modelled']
     res.trusted.append('hand-written model PoolLife/Model.v [restart_w]; scripted children (harness/life.py)')
-    core.prove(res, PROP, [], PROOFS, run_files=['theories/PoolLife/Run.v'])
+    core.prove(res, PROP, ['Restart'], PROOFS + ['theories/PoolLife/Restart.v'], run_files=['theories/PoolLife/Run.v'])
     sys.path.insert(0, core.REPO)
     terms, keep = [], []
     L = 2 if tier == 'quick' else 3
